@@ -58,3 +58,10 @@ func init() {
 		Real:  []string{"weed/topology VolumeGrowth (GrowByCountAndType, findEmptySlotsForOneVolume, PickNodesByWeight, ReserveOneVolume, AllocateVolume), topology registration", "weed/server MasterServer.SendHeartbeat", "gRPC client/server stacks over in-memory connections"}, Stub: []string{"volume servers: modelled heartbeat sources with a recording AllocateVolume endpoint", "raft: RaftStub"},
 		Assume: []string{"partial claim: the placement rule over arbitrary topologies is a function of (topology, RNG draws); the simulator owns the RNG (seeded per run) and the interleaving with heartbeats", "only 'no invalid or partial placement' is checked, not that growth succeeds whenever a valid set exists", "allocation RPCs always succeed in this check"}}
 }
+
+func init() {
+	props["C37"] = &propCfg{Engine: "cluster", Variants: []string{""}, Quick: 500, Thorough: 40000, Chunk: 25, QuickWall: 110, ThorWall: 1500,
+		Rule:  "each run = a source volume on a real volume server receiving uploads, overwrites and deletes over HTTP (keys first written in ascending or arbitrary order) and compaction+commit through the vacuum RPCs, interleaved with backup runs that follow command/backup.go (sync status, local compaction when the source revision moved, discard when the local copy is longer, IncrementalBackup) on a local volume pulling through the real VolumeIncrementalCopy stream on the simulated network; the stream's receive side is gated so that source writes are released while the copy stream is open; after every backup run that had no write during it, every key read from the backup equals the source's live content; non-trivial = a source compaction or a write during an open stream; distinct = distinct abstract traces",
+		Real:  clusterReal, Stub: append([]string{"the backup command's steps are reproduced by the harness (runBackup itself reads command-line flags)"}, clusterStub...),
+		Assume: []string{"stream faults are not injected (the statement promises no fault tolerance there)", "a backup run during which the source was written is only required to converge with the next run"}}
+}
